@@ -1,5 +1,6 @@
 import Proofs.AlignLemmas
 import Proofs.C13
+import Proofs.C05
 import Mathlib.Algebra.Order.Ring.Rat
 
 /-!
@@ -253,4 +254,64 @@ example : (alignWcs [⟨none, [1, 2, 3], none⟩, ⟨none, [2, 3, 4], some .sing
     [(1, 20, none), (2, 7, none), (3, 21, some 0), (8, 22, some 2), (9, 23, some 2)] := by
   decide +kernel
 
+end TW.C14
+
+
+/-! ### On the sky: a physical source seen in two aligned images (or in an aligned image and the reference)
+
+The first clause of C14 in the exact-error model, from the group-level end-to-end theorems of C05
+(`group_align_exact*` give `MovedBy`; `group_align_lands_on_reference*` read it on the sky): two groups - FITS or
+gWCS, each aligned in its own plane, with its own members, catalog, matcher result and fitted map - are aligned to
+ONE reference catalog.  A source of the first group and a source of the second that were matched to the same
+reference row end with the same recomputed sky position, which is the position of that reference row. -/
+namespace TW.C14
+section Sky
+open TW.GC TW.GCL TW.GA TW.GAL
+variable {F : Type} [Field F] [LinearOrder F] [IsStrictOrderedRing F]
+
+/-- an aligned FITS group against the reference: the matched row carries the reference position -/
+theorem aligned_image_agrees_with_reference (P : Aff F) (hP : P.m.det ≠ 0) (δ : Nat → V2 F → V2 F)
+    (ms : List (GMember (FState F) F)) (st : GState F) (R : GAResult (FState F) F) (ref : RefCat F)
+    (inp rf : List Nat) (f : Aff F) (T : Lin F)
+    (h : MovedBy (fitsOps P δ) ms st R ref inp rf f T)
+    (k i j : Nat) (rd : F × F) (hi : inp[k]? = some i) (hj : rf[k]? = some j) (hrd : ref.radec[j]? = some rd) :
+    ∃ row, R.st.rows[i]? = some row ∧ row.radec = rd :=
+  (C05.group_align_lands_on_reference P hP δ ms st R ref inp rf f T h).1 k i j rd hi hj hrd
+
+/-- two FITS groups aligned to the same reference catalog (each in its own plane): a common source - matched to the
+same reference row by both - has ONE sky position after the alignment -/
+theorem aligned_images_agree_fits (P₁ P₂ : Aff F) (hP₁ : P₁.m.det ≠ 0) (hP₂ : P₂.m.det ≠ 0)
+    (δ₁ δ₂ : Nat → V2 F → V2 F)
+    (ms₁ ms₂ : List (GMember (FState F) F)) (st₁ st₂ : GState F) (R₁ R₂ : GAResult (FState F) F) (ref : RefCat F)
+    (inp₁ rf₁ inp₂ rf₂ : List Nat) (f₁ f₂ : Aff F) (T₁ T₂ : Lin F)
+    (h₁ : MovedBy (fitsOps P₁ δ₁) ms₁ st₁ R₁ ref inp₁ rf₁ f₁ T₁)
+    (h₂ : MovedBy (fitsOps P₂ δ₂) ms₂ st₂ R₂ ref inp₂ rf₂ f₂ T₂)
+    (k₁ k₂ i₁ i₂ j : Nat) (rd : F × F)
+    (hi₁ : inp₁[k₁]? = some i₁) (hj₁ : rf₁[k₁]? = some j) (hi₂ : inp₂[k₂]? = some i₂) (hj₂ : rf₂[k₂]? = some j)
+    (hrd : ref.radec[j]? = some rd) :
+    ∃ row₁ row₂, R₁.st.rows[i₁]? = some row₁ ∧ R₂.st.rows[i₂]? = some row₂ ∧ row₁.radec = row₂.radec ∧
+      row₁.radec = rd := by
+  obtain ⟨r1, hr1, e1⟩ := aligned_image_agrees_with_reference P₁ hP₁ δ₁ ms₁ st₁ R₁ ref inp₁ rf₁ f₁ T₁ h₁ k₁ i₁ j rd hi₁ hj₁ hrd
+  obtain ⟨r2, hr2, e2⟩ := aligned_image_agrees_with_reference P₂ hP₂ δ₂ ms₂ st₂ R₂ ref inp₂ rf₂ f₂ T₂ h₂ k₂ i₂ j rd hi₂ hj₂ hrd
+  exact ⟨r1, r2, hr1, hr2, by rw [e1, e2], e1⟩
+
+/-- a FITS group and a gWCS group aligned to the same reference catalog agree on their common sources as well -/
+theorem aligned_images_agree_mixed (P : Aff F) (hP : P.m.det ≠ 0) (δ : Nat → V2 F → V2 F)
+    (env : Nat → GEnv F) (refW2T refT2W : V2 F → V2 F) (hr1 : ∀ w, refT2W (refW2T w) = w) (s0 : Nat → F)
+    (ms₁ : List (GMember (FState F) F)) (ms₂ : List (GMember (GCorr F) F)) (st₁ st₂ : GState F)
+    (R₁ : GAResult (FState F) F) (R₂ : GAResult (GCorr F) F) (ref : RefCat F)
+    (inp₁ rf₁ inp₂ rf₂ : List Nat) (f₁ f₂ : Aff F) (T₁ T₂ : Lin F)
+    (h₁ : MovedBy (fitsOps P δ) ms₁ st₁ R₁ ref inp₁ rf₁ f₁ T₁)
+    (h₂ : MovedBy (gwcsOps env refW2T refT2W s0) ms₂ st₂ R₂ ref inp₂ rf₂ f₂ T₂)
+    (k₁ k₂ i₁ i₂ j : Nat) (rd : F × F)
+    (hi₁ : inp₁[k₁]? = some i₁) (hj₁ : rf₁[k₁]? = some j) (hi₂ : inp₂[k₂]? = some i₂) (hj₂ : rf₂[k₂]? = some j)
+    (hrd : ref.radec[j]? = some rd) :
+    ∃ row₁ row₂, R₁.st.rows[i₁]? = some row₁ ∧ R₂.st.rows[i₂]? = some row₂ ∧ row₁.radec = row₂.radec ∧
+      row₁.radec = rd := by
+  obtain ⟨r1, hr1', e1⟩ := (C05.group_align_lands_on_reference P hP δ ms₁ st₁ R₁ ref inp₁ rf₁ f₁ T₁ h₁).1 k₁ i₁ j rd hi₁ hj₁ hrd
+  obtain ⟨r2, hr2', e2⟩ := (C05.group_align_lands_on_reference_gwcs env refW2T refT2W hr1 s0 ms₂ st₂ R₂ ref inp₂ rf₂ f₂ T₂ h₂).1
+    k₂ i₂ j rd hi₂ hj₂ hrd
+  exact ⟨r1, r2, hr1', hr2', by rw [e1, e2], e1⟩
+
+end Sky
 end TW.C14
